@@ -152,6 +152,45 @@ def extra(ctx, res):
                         sig = "standalone-normalized:readonly-in-child"
                 res["violations"].append({"signature": sig, "what": d,
                                           "replay": {"schema": common.jval(schema), "document": common.jval(doc), "config": common.jval(cfg), "update": upd}})
+    # ... and the members of a list: each dict member ends, and reports, as it does on its own -- whatever happens to its siblings
+    for i in range(nn // 3):
+        sub_schema = g2.schema()
+        if oracles.has_caret(sub_schema) or oracles.mentions(sub_schema, ('readonly',)):
+            continue
+        schema = {'f': {'type': 'list', 'schema': {'type': 'dict', 'schema': sub_schema}}}
+        cfg = {k: v for k, v in g2.config().items() if k in ('ignore_none_values', 'purge_readonly', 'purge_unknown', 'require_all')}
+        members = [g2.doc_for(sub_schema, p_present=0.8) for _ in range(rng.randrange(1, 4))]
+        doc = {'f': members}
+        upd = rng.random() < 0.3
+        try:
+            v = _pool.PoolValidator(_copy.deepcopy(schema), **_copy.deepcopy(cfg))
+            v.validate(_copy.deepcopy(doc), update=upd)
+        except Exception:
+            continue
+        if not isinstance(v.document.get('f'), list) or len(v.document['f']) != len(members) or \
+                [e for e in v._errors if tuple(e.document_path) == ('f',) and e.code != 0x82]:
+            continue
+        for j, m in enumerate(members):
+            if not isinstance(m, dict):
+                continue
+            try:
+                alone = _pool.PoolValidator(_copy.deepcopy(sub_schema), **_copy.deepcopy(cfg))
+                alone.validate(_copy.deepcopy(m), update=upd)
+            except Exception:
+                continue
+            res["cases"] += 1
+            res["nontrivial"] += 1
+            a = leaves([e for e in v._errors if tuple(e.document_path)[:2] == ('f', j)], 2)
+            b = leaves(alone._errors, 0)
+            d = None
+            if v.document['f'][j] != alone.document:
+                d = "processed member %d of the list under 'f': nested %r, on its own %r" % (j, v.document['f'][j], alone.document)
+            elif a != b:
+                d = "errors beneath member %d with normalization on: nested %r != on its own %r" % (j, a[:3], b[:3])
+            if d:
+                res["violations"].append({"signature": "standalone-normalized:list-member", "what": d,
+                                          "replay": {"schema": common.jval(schema), "document": common.jval(doc), "config": common.jval(cfg), "update": upd}})
+                break
     # directed family: a sub-document key named 'dependencies' below a field that has a `dependencies` rule followed by
     # another rule (the rule's closing look-up reads the DOCUMENT error tree with a SCHEMA path)
     import copy
